@@ -165,6 +165,16 @@ func (g *Gen) call(st *State, site ssa.Instruction, c *ssa.CallCommon, rt types.
 			}
 		}
 	}
+	// concretisation mode: execute in-repo callees instead of summarising them (models must be real executions)
+	if g.unroll > 0 && static != nil && len(static.Blocks) > 0 && g.inlineDepth < 3 && static.Pkg != nil && g.W.rootPkg[static.Pkg.Pkg.Path()] {
+		var binds []Val
+		if mc, ok := c.Value.(*ssa.MakeClosure); ok {
+			for _, b := range mc.Bindings {
+				binds = append(binds, g.value(st, b))
+			}
+		}
+		return g.inlineCall(st, static, args, binds, rt)
+	}
 	// 2. contract of the static callee
 	if static != nil {
 		if fs := g.W.specFor(static); fs != nil {
